@@ -4,3 +4,5 @@ import CijModel.QExpr
 import CijModel.Wire
 import CijModel.Ops.C10
 import CijModel.Ops.C12
+import CijModel.NonShear
+import CijModel.Ops.C01
